@@ -15,12 +15,19 @@ mod util;
 
 use std::io::{self, BufRead, Write};
 
+fn fnv(t: &str) -> u64 {
+    t.bytes().fold(0xcbf29ce484222325u64, |h, b| (h ^ b as u64).wrapping_mul(0x100000001b3))
+}
+
 fn main() {
     let engine = std::env::args().nth(1).unwrap_or_default();
     // panics are reported through catch_unwind; silence the default hook
     std::panic::set_hook(Box::new(|_| {}));
     let stdin = io::stdin();
     let stdout = io::stdout();
+    // QV_FRESH: 0 = every case on the main thread, 2 = every case on a thread of its own, otherwise mixed
+    let fresh_mode: u8 = std::env::var("QV_FRESH").ok().and_then(|v| v.parse().ok()).unwrap_or(1);
+    let seed_mix = fnv(&std::env::var("VERIF_SEED").unwrap_or_default());
     for line in stdin.lock().lines() {
         let line = line.expect("stdin");
         let line = line.trim();
@@ -35,18 +42,36 @@ fn main() {
             writeln!(o, "BEGIN {}", id).unwrap();
             o.flush().unwrap();
         }
-        let res = std::panic::catch_unwind(|| match engine.as_str() {
-            "ops" => ops::run(&toks),
-            "bits" => bits::run(&toks),
-            "reg" => reg::run(&toks),
-            "conc" => conc::run(&toks),
-            "qasm" => qasm::run(&toks),
-            "sampler" => sampler::run(&toks),
+        // State that outlives a call (thread-local caches, counters, lazily built tables) must not change any
+        // result: about half of the cases -- chosen by a hash of the case id and VERIF_SEED -- run on a thread of
+        // their own, where every such state is in its initial condition; the others share the main thread and
+        // see whatever the cases before them left behind.  Both kinds are compared with the model alike.
+        let fresh = fresh_mode != 0 && (fresh_mode == 2 || (fnv(&id) ^ seed_mix) & 0x100 != 0) && engine != "conc";
+        let dispatch = |engine: &str, toks: &[&str]| match engine {
+            "ops" => ops::run(toks),
+            "bits" => bits::run(toks),
+            "reg" => reg::run(toks),
+            "conc" => conc::run(toks),
+            "qasm" => qasm::run(toks),
+            "sampler" => sampler::run(toks),
             other => format!("ERR unknown-engine {}", other),
-        });
-        let payload = match res {
-            Ok(s) => s,
-            Err(e) => format!("PANIC {}", util::panic_class(&e)),
+        };
+        let payload = if fresh {
+            let eng = engine.clone();
+            let owned: Vec<String> = toks.iter().map(|s| s.to_string()).collect();
+            let h = std::thread::Builder::new().stack_size(8 << 20).spawn(move || {
+                let toks: Vec<&str> = owned.iter().map(|s| s.as_str()).collect();
+                dispatch(&eng, &toks)
+            }).expect("spawn");
+            match h.join() {
+                Ok(s) => s,
+                Err(e) => format!("PANIC {}", util::panic_class(&e)),
+            }
+        } else {
+            match std::panic::catch_unwind(|| dispatch(&engine, &toks)) {
+                Ok(s) => s,
+                Err(e) => format!("PANIC {}", util::panic_class(&e)),
+            }
         };
         let mut o = stdout.lock();
         writeln!(o, "RES {} {}", id, payload).unwrap();
